@@ -2,6 +2,6 @@
 SPECIFICATION Spec
 CONSTANTS
   MaxOps = 25
-  Starts = {"lib-absent", "all-present", "companion-mismatch"}
+  Starts = {"lib-absent", "all-present", "companion-mismatch", "nothing"}
 INVARIANTS TypeOK ExeDefined Report
 CHECK_DEADLOCK FALSE
